@@ -51,13 +51,21 @@ func (a Atom) String() string {
 type AV struct {
 	R, E  Atom
 	K     Atom // maps: regions the keys may point into (values are in E)
+	isNil bool // the literal nil and nothing else (a call through it is dead code)
 	fns   map[*ssa.Function]bool
 	env   *AV    // join of closure bindings
 	sites string // sorted "|"-joined allocation sites of address-taken local cells
 }
 
 func (a AV) join(b AV) AV {
-	r := AV{R: a.R | b.R, E: a.E | b.E, K: a.K | b.K}
+	r := AV{R: a.R | b.R, E: a.E | b.E, K: a.K | b.K, isNil: a.isNil && b.isNil}
+	if a.isNil && !b.isNil && b.key() == (AV{}).key() {
+		// joining nil with "nothing known yet": stay nil until something else arrives
+		r.isNil = true
+	}
+	if b.isNil && !a.isNil && a.key() == (AV{}).key() {
+		r.isNil = true
+	}
 	if len(a.fns) > 0 || len(b.fns) > 0 {
 		r.fns = map[*ssa.Function]bool{}
 		for f := range a.fns {
@@ -108,7 +116,11 @@ func (a AV) key() string {
 	if a.env != nil {
 		ek = a.env.key()
 	}
-	return fmt.Sprintf("%d.%d.%d.%s.%s.%s", a.R, a.E, a.K, strings.Join(fs, ","), ek, a.sites)
+	nl := ""
+	if a.isNil {
+		nl = "nil"
+	}
+	return fmt.Sprintf("%d.%d.%d.%s.%s.%s%s", a.R, a.E, a.K, strings.Join(fs, ","), ek, a.sites, nl)
 }
 
 func (a AV) eq(b AV) bool { return a.key() == b.key() }
@@ -349,6 +361,11 @@ func (ra *RegionAnalysis) runBody(fn *ssa.Function, args []AV, ctxKey string) []
 	get := func(v ssa.Value) AV {
 		switch x := v.(type) {
 		case *ssa.Const:
+			if x.Value == nil {
+				if _, isFn := x.Type().Underlying().(*types.Signature); isFn {
+					return AV{isNil: true}
+				}
+			}
 			return AV{}
 		case *ssa.Global:
 			return AV{R: aG, E: aG}
@@ -365,9 +382,12 @@ func (ra *RegionAnalysis) runBody(fn *ssa.Function, args []AV, ctxKey string) []
 				return false
 			}
 		}
-		old := val[v]
+		old, had := val[v]
 		n := old.join(a)
-		if n.eq(old) {
+		if !had && a.isNil {
+			n.isNil = true
+		}
+		if had && n.eq(old) {
 			return false
 		}
 		if tr := os.Getenv("GOVC_TRACE_TYPE"); tr != "" && n.R&aC != 0 && old.R&aC == 0 && strings.Contains(v.Type().String(), tr) && ra.traceN < 25 {
@@ -802,6 +822,9 @@ func (ra *RegionAnalysis) call(fn *ssa.Function, ins ssa.Instruction, c *ssa.Cal
 	}
 	// dynamic call
 	fv := get(c.Value)
+	if len(fv.fns) == 0 && fv.isNil {
+		return make([]AV, nres) // call through a nil function value: dead code (it would panic)
+	}
 	if len(fv.fns) == 0 {
 		// no function value reaches this call (e.g. an optional callback that is always nil)
 		ra.unresolved[fnDisplay(fn)+": call through a function value with no known target"] = true
@@ -963,10 +986,10 @@ func (p *Program) regionModset(u *Universe, fn *ssa.Function) *ModSet {
 		}
 		return AV{}
 	})
-	for k := range ra.unresolved {
-		if !strings.Contains(k, "no known target") {
-			return nil
-		}
+	if len(ra.unresolved) > 0 {
+		// a call through a function value whose targets are not known from this root
+		// (typically a function-typed parameter of fn itself): no refinement
+		return nil
 	}
 	if os.Getenv("GOVC_VERBOSE") != "" {
 		fmt.Fprintf(os.Stderr, "regionModset(%s): %d writes, unresolved %v\n", fnDisplay(fn), len(ra.writes), ra.unresolved)
